@@ -19,6 +19,12 @@ RULE = ("every trait type of the option grid (%d trait terms: fast classes, Base
         "adaptable objects, their adapters and instances of the target class in three flavours (truthy, __bool__ "
         "returning False, __len__ returning 0) against Instance(adapt='yes'/'default') stand-alone, as Tuple items, "
         "below Either / Union, and (two real paths + oracle only) Supports / AdaptsTo; "
+        "(implementation + oracle only) objects that pass isinstance() without being instances by type (metaclass "
+        "__instancecheck__, __class__ property) with / without a registered adapter against every adapting trait: "
+        "a registered adapter is what gets stored; clones by call T(allow_none=b) of the Instance-like terms against the "
+        "trait constructed with allow_none=b; forward-referenced Instance('Name') / TraitInstance('Name', module=) "
+        "members of Either / Trait() / TraitCompound in histories across the resolution (grid + random) against the "
+        "same definition with the class given directly; "
         "a case is non-trivial when some path accepted, converted or raised; distinct = distinct output line")
 TRUSTED = ["Py.Val: hand model of isinstance / == / hash / operator.index / PyFloat_AsDouble / PyComplex_AsCComplex / "
            "int->double rounding on the lattice, validated against CPython + numpy on every run (kinds p, q)",
@@ -26,7 +32,8 @@ TRUSTED = ["Py.Val: hand model of isinstance / == / hash / operator.index / PyFl
            "parameters of the model; their outcome is computed with the plain builtins and sent on the case line",
            "adapt(), user validator functions: parameters, instantiated in the driver by twins of the harness objects"]
 ASSUMPTIONS = ["special methods do not raise TraitError themselves and validators are pure functions of the value",
-               "no __instancecheck__/__class__ overrides: PyObject_TypeCheck and isinstance coincide on the lattice",
+               "no __instancecheck__/__class__ overrides: PyObject_TypeCheck and isinstance coincide on the lattice "
+               "of the model (objects with such overrides run on the implementation + oracle only: `#` adapt-order stream)",
                "`aitem != bitem` (identity) in the tuple check is modelled by structural inequality: no validator of the "
                "model returns a new object that is structurally identical to its input",
                "hash and == are consistent on the lattice (dict lookup = first equal key)",
@@ -95,8 +102,24 @@ def generate(rng, tier):
     for tt in ADAPT_TUPLES:
         for v in ADAPT_TUPLE_VALUES:
             yield case_v(tt, v)
-    # forward-referenced Instance("Name") alternatives inside compounds: multi-step histories with assignments
-    # before and after the class is resolved, either path first (stateful: implementation + oracle only)
+    # objects that pass isinstance(value, klass) without being instances by type (metaclass __instancecheck__,
+    # __class__ property), with / without an adapter registered from their real type: the order "adaptation first,
+    # isinstance second" of the adapting validators becomes observable (implementation + oracle only)
+    for tt, wrap in claim_traits():
+        for v in CLAIM_VALUES:
+            yield "#v|-|%s|%s" % (tt, wrap % v)
+    # CLONE BY CALL T(allow_none=b) of every Instance-like term of the grid, allow_none flipped and kept
+    for tt in clone_terms(singles):
+        for v in CLONE_VALUES:
+            yield "#v|-|%s|%s" % (tt, v)
+    for tt, wrap in CLONE_NESTED:
+        for v in CLONE_VALUES:
+            yield "#v|-|%s|%s" % (tt, wrap % v)
+    # forward-referenced Instance("Name") / legacy TraitInstance("Name", module=…) alternatives inside compounds:
+    # multi-step histories with assignments before and after the class is resolved, either path first (stateful:
+    # implementation + oracle only); a small exhaustive grid, then random ones
+    for line in forward_grid():
+        yield line
     for _ in range(ncomp // 8):
         yield forward_case(rng)
     for _ in range(ncomp):
@@ -119,37 +142,131 @@ FWD_VALUES = ["(inst 6 (6) () 11)", "(inst 6 (6) () 12)", "(inst 7 (7 6) () 13)"
               "(b 1)", "(inst 2 (2) () 3)", "(t (i 1))", "(cls 6 (6))"]
 
 
+FWD_MEMBERS = ["(InstanceF 0)", "(InstanceF 1)", "(InstanceHF 0 0)", "(InstanceHF 1 0)", "(InstanceHF 0 1)", "(InstanceHF 1 1)"]
+FWD_FORMS = ["(Either 0 %s)", "(CompoundH %s)", "(TraitK N () %s)"]
+FWD_PROBE = {"Int": "(i 3)", "Str": "(s a)", "Float": "(f 10)"}
+
+
 def forward_case(rng):
     alts = [rng.choice(FWD_FAST) for _ in range(rng.randint(1, 2))]
     if rng.random() < 0.3:
         alts.append(rng.choice(FWD_SLOW))
-    alts.insert(rng.randrange(len(alts) + 1), "(InstanceF %d)" % rng.randint(0, 1))
+    member = rng.choice(FWD_MEMBERS)
+    alts.insert(rng.randrange(len(alts) + 1), member)
     r = rng.random()
-    tt = ("(Either %d %s)" % (1 if r < 0.15 else 0, " ".join(alts)) if r < 0.75 else "(CompoundH %s)" % " ".join(alts))
+    tt = ("(Either %d %s)" % (1 if r < 0.15 else 0, " ".join(alts)) if r < 0.6 else
+          "(CompoundH %s)" % " ".join(alts) if r < 0.8 else "(TraitK N () %s)" % " ".join(alts))
     if rng.random() < 0.1:
-        tt = "(InstanceF %d)" % rng.randint(0, 1)           # stand-alone, for contrast
+        tt = member           # stand-alone, for contrast
     steps = [rng.choice(FWD_VALUES[:4]) if rng.random() < 0.5 else rng.choice(FWD_VALUES) for _ in range(rng.randint(3, 9))]
     if rng.random() < 0.3:
         steps.insert(rng.randrange(1, len(steps) + 1), "NEW")   # a second object of the same class
     return "#f|-|%s|%s;%s" % (tt, rng.choice(["fastfirst", "pyfirst"]), ";".join(steps))
 
 
+def forward_grid():
+    """Every forward-referencing member x one scalar member x position x kind of compound x path order: a value
+    of the scalar member before the resolution, the resolving assignment, the same value afterwards, and once
+    more on a second, fresh object of the class."""
+    for member in FWD_MEMBERS:
+        for other, probe in sorted(FWD_PROBE.items()):
+            for alts in ((member, other), (other, member)):
+                for form in FWD_FORMS:
+                    for order in ("fastfirst", "pyfirst"):
+                        yield "#f|-|%s|%s;%s;N;(inst 6 (6) () 11);%s;NEW;%s;(inst 7 (7 6) () 13)" % (
+                            form % " ".join(alts), order, probe, probe, probe)
+
+
+def claim_traits():
+    """(trait term, value wrapper) of the adapt-order stream: the adapting traits on the two claimed classes
+    (cid 60: metaclass __instancecheck__; cid 2: claimed through a __class__ property), stand-alone and inside
+    Tuple / Either / Union."""
+    out = []
+    for c in ("(u 60)", "(u 2)"):
+        alone = ["(Instance %s %s %s N)" % (c, an, mode) for an in "01" for mode in "012"]
+        alone += ["(Supports %s 0)" % c, "(Supports %s 1)" % c, "(AdaptsTo %s 0)" % c, "(AdaptsTo %s 1)" % c,
+                  "(Base (Instance %s 0 1 N))" % c, "(Base (Instance %s 1 2 N))" % c]
+        yes, dflt, sup = "(Instance %s 0 1 N)" % c, "(Instance %s 1 2 N)" % c, "(Supports %s 0)" % c
+        alone += ["(Either 0 %s Int)" % yes, "(Either 0 Str %s)" % yes, "(Either 1 Str %s)" % sup, "(Union %s Str)" % yes,
+                  "(Union Str %s)" % dflt, "(Union Int %s)" % sup, "(CompoundH Int %s)" % yes]
+        out += [(t, "%s") for t in alone]
+        out += [("(Tuple %s Int)" % yes, "(t %s (i 1))"), ("(Tuple Int %s)" % dflt, "(t (i 1) %s)"),
+                ("(Tuple %s Int)" % sup, "(t %s (i 1))"), ("(Tuple (Either 0 Str %s) Int)" % yes, "(t %s (i 1))"),
+                ("(Tuple Int (Union %s Str))" % dflt, "(ts (i 1) %s)"), ("(Tuple Int (Base %s))" % yes, "(t (i 1) %s)")]
+    return out
+
+
+CLAIM_VALUES = V.claiming_values() + ["(inst 60 (60) () 60)", "(inst 4 (4) (2) 5)", "(inst 2 (2) () 3)", "(inst 47 (47 4) (2) 24)",
+                                      "N", "(i 1)"]
+CLONE_VALUES = ["N", "(inst 2 (2) () 3)", "(inst 3 (3 2) () 4)", "(inst 4 (4) (2) 5)", "(inst 0 (0) () 1)", "(i 1)", "(s a)",
+                "(inst 22 (22 2) () 26)"]
+CLONE_NESTED = [("(Either 0 Int (Clone (Instance (u 2) 1 0 N) 0))", "%s"), ("(Either 0 (Clone (Instance (u 2) 0 0 N) 1) Str)", "%s"),
+                ("(Tuple (Clone (Instance (u 2) 1 0 N) 0) Int)", "(t %s (i 1))"),
+                ("(Tuple Int (Clone (Instance (u 2) 0 1 N) 1))", "(t (i 1) %s)"),
+                ("(Union Str (Clone (Instance (u 2) 1 1 N) 0))", "%s")]
+
+
+def clone_terms(singles):
+    """(Clone T b), b in {0, 1}, for the Instance-like terms T of the grid (Instance / BaseInstance with every
+    adapt mode, Supports, AdaptsTo): T(allow_none=b).  (This is no BaseInstance: its clone keeps allow_none as plain metadata.)"""
+    out = []
+    for tt in list(singles) + SUPPORTS[:4]:
+        t = V.parse_sexp(tt)
+        if declared_of_clone(["Clone", t, "0"]) is not None:
+            out += ["(Clone %s %s)" % (tt, b) for b in "01"]
+    return out
+
+
+def declared_of_clone(t):
+    """The term a clone by call is declared to behave like: the same trait constructed with allow_none=b."""
+    inner, b = t[1], t[2]
+    if not isinstance(inner, list):
+        return None
+    if inner[0] == "Instance":
+        return ["Instance", inner[1], b] + inner[3:]
+    if inner[0] in ("Supports", "AdaptsTo"):
+        return [inner[0], inner[1], b]
+    if inner[0] == "Base" and isinstance(inner[1], list) and inner[1][0] == "Instance":
+        return ["Base", declared_of_clone(["Clone", inner[1], b])]
+    return None
+
+
+def direct_twin(t):
+    """The forward-referencing term with the class given directly."""
+    if isinstance(t, list):
+        if t and t[0] == "InstanceF":
+            return ["Instance", ["u", "6"], t[1], "0", "N"]
+        if t and t[0] == "InstanceHF":
+            return ["InstanceH", ["u", "6"], t[1]]
+        return [direct_twin(x) for x in t]
+    return t
+
+
 def run_f(tt, hist):
     """History on a class-level trait with a forward reference: every step assigns through the compiled path
-    and asks the handler's Python validate; the two must decide alike before and after the class is resolved."""
+    and asks the handler's Python validate; the two must decide alike before and after the class is resolved.
+    Independently: every step decides like the same definition with the class given directly (the declared
+    meaning of a forward reference), and the validator installed in the class's CTrait stays the one its handler
+    declares (resolution may recompute it, not replace it by a member's)."""
     from traits.api import HasTraits
     ctx = V.Ctx()
     tterm = V.parse_sexp(tt)
     steps = hist.split(";")
     order, steps = steps[0], steps[1:]
     import traits.api as T
-    o = V.build_trait(tterm, ctx)
-    G = type("G", (HasTraits,), {"x": o if isinstance(o, T.TraitType) else T.Trait(o), "__repr__": lambda self: "<G>"})
-    obj = G()
-    hits, outs, tags = [], [], {"forward", "order:" + order}
+
+    def mk(term):
+        o = V.build_trait(term, ctx)
+        G = type("G", (HasTraits,), {"x": o if isinstance(o, T.TraitType) else T.Trait(o), "__repr__": lambda self: "<G>"})
+        return G
+    G, G2 = mk(tterm), mk(direct_twin(tterm))
+    obj, twin = G(), G2()
+    member = "TraitInstance" if "(InstanceHF" in tt else "Instance"
+    hits, outs, tags = [], [], {"forward", "order:" + order, "forward-member:" + member,
+                                "forward-in:" + (tterm[0] if tterm[0] not in ("InstanceF", "InstanceHF") else "alone")}
     for i, s in enumerate(steps):
         if s == "NEW":
-            obj = G()
+            obj, twin = G(), G2()
             outs.append("new")
             continue
         value = V.build_value(V.parse_sexp(s), ctx)
@@ -160,20 +277,52 @@ def run_f(tt, hist):
 
         def py():
             return obj.trait("x").handler.validate(obj, "x", value)
+
+        def direct():
+            setattr(twin, "x", value)
+            return twin.__dict__["x"]
         if order == "fastfirst":
             f, _, _ = V.show_outcome(fast, ctx)
             p, _, _ = V.show_outcome(py, ctx)
         else:
             p, _, _ = V.show_outcome(py, ctx)
             f, _, _ = V.show_outcome(fast, ctx)
+        d, _, _ = V.show_outcome(direct, ctx)
+        ct = obj.base_trait("x")
+        declared = getattr(ct.handler, "fast_validate", None)
+        installed = ct.get_validate()
+        replaced = declared is not None and installed != declared and hasattr(ct.handler, "set_validate")
         kind = classify(f, p)
+        kind_d = classify(f, d)
         outs.append("%s/%s" % (f, p))
         tags.add("fwd-step:" + ("first" if i == 0 else "later"))
+        if replaced:
+            tags.add("fwd-compound-validator-replaced")
+        if kind_d is not None and replaced:
+            # ---- oracle: the resolution of a member replaced the validator of the whole compound
+            hits.append(_hit("forward-ref-resolution-replaces-compound-validator:%s" % member,
+                             "%s, %s, step %d (%s): the compiled path gives %s, the same definition with the class given "
+                             "directly gives %s (handler.validate: %s); the validator installed in the class's CTrait is %s, "
+                             "its handler (%s) declares %s; history %s" % (
+                                 tt, order, i, s, f, d, p, show_installed(installed, ctx), type(ct.handler).__name__,
+                                 V.show_desc(declared, ctx), hist)))
+            continue
+        if kind_d is not None:
+            hits.append(_hit("forward-reference-differs-from-direct-class:%s" % kind_d,
+                             "%s, %s, step %d (%s): compiled path gives %s, the same definition with the class given "
+                             "directly gives %s; history %s" % (tt, order, i, s, f, d, hist)))
         if kind is not None:
             hits.append(_hit("forward-reference:%s" % kind,
                              "%s, %s, step %d (%s): compiled path gives %s, handler.validate gives %s; history %s" % (
                                  tt, order, i, s, f, p, hist)))
     return " ; ".join(outs), hits, tags
+
+
+def show_installed(v, ctx):
+    try:
+        return V.show_desc(v, ctx)
+    except Exception:
+        return "?"
 
 
 def _hit(sig, what, **kw):
@@ -310,10 +459,23 @@ def differential(tterm, value, ctx, obj):
     if head in ("Either", "CompoundH") and "(Instance" in V.show_sexp(tterm) and kind in ("value-differs", "exact-type-differs") \
             and py == "ok N" and fast == "ok " + V.show_value(p.ct.default_value_for(obj, "x"), ctx):
         return [("adapt-default-takes-enclosing-default", what)], fast, py
+    if head == "Clone" and value is None and declared_of_clone(tterm) is not None:
+        # clone by call: the compiled validator was copied from the original, the Python validate reads the
+        # clone's own _allow_none; named only when the compiled path is the one that leaves the declared behaviour
+        tw, _, _ = V.show_outcome(lambda: Paths(declared_of_clone(tterm), ctx).fast(obj, value), ctx)
+        if fast != tw and py == tw:
+            return [("clone-allow-none-stale-fast-validate:%s-None" % ("accepts" if fast.startswith("ok ") else "rejects"),
+                     what + "; declared behaviour (%s): %s" % (V.show_sexp(declared_of_clone(tterm)), tw))], fast, py
     if head in ("Instance", "InstanceH") and value is None and kind == "py-rejects-fast-accepts":
         # allow_none=False, but None is an instance of the class (object, NoneType)
         return [("instance-none-is-instance-of-class", what)], fast, py
     am = adapt_mode(tterm)
+    if am is not None and vterm[0] == "inst" and int(vterm[1]) in V.CLAIMING and kind == "value-differs" \
+            and (fr is value) != (pr is value):
+        # one path stores the object itself (it passes isinstance), the other its adapter: the two paths take
+        # the isinstance test and the adaptation in different orders
+        return [("adapt-order:fast-vs-python:%s:%s" % (am, V.claim_name(int(vterm[1])).split(":")[0]),
+                 what + " (the %s path stores the unadapted object)" % ("compiled" if fr is value else "Python"))], fast, py
     if am is not None and vterm[0] == "inst":
         # adaptation took part: name the falsy party (an adapter / adaptee that defines __bool__ or __len__)
         own, adapter = V.inst_flavours(int(vterm[1]))
@@ -339,6 +501,75 @@ def adapt_mode(tterm):
     if isinstance(tterm, list) and tterm[0] in ("Supports", "AdaptsTo"):
         return tterm[0].lower()
     return None
+
+
+def adapt_target(tterm):
+    """cid of the class an adapting trait term adapts to (None for a builtin type)."""
+    if isinstance(tterm, list) and tterm[0] == "Base":
+        return adapt_target(tterm[1])
+    return int(tterm[1][1]) if isinstance(tterm[1], list) else None
+
+
+SCALAR_ALTS = ("Int", "Str", "Float", "Bool", "Complex", "Bytes", "NoneT")
+
+
+def adapter_expected(tterm, vterm):
+    """Positions of a value at which the statement `an adapter factory is registered from type(value) to the
+    class and adapt != "no": what is stored is the adapter, not the value` applies, decided from the DATA of the
+    terms alone (the adapts-to list and the mro of the `inst` term): list of (path, mode, trait term, value term)."""
+    if not isinstance(tterm, list):
+        return []
+    am = adapt_mode(tterm)
+    if am is not None:
+        if isinstance(vterm, list) and vterm[0] == "inst" and adapt_target(tterm) is not None:
+            target = str(adapt_target(tterm))
+            if target in vterm[3] and target not in vterm[2]:
+                return [((), am, tterm, vterm)]
+        return []
+    h = tterm[0]
+    if h in ("Tuple", "BaseTuple") and isinstance(vterm, list) and vterm[0] in ("t", "ts") and len(vterm) == len(tterm):
+        return [((i,) + path, am, a, x) for i, (a, v) in enumerate(zip(tterm[1:], vterm[1:]))
+                for path, am, a, x in adapter_expected(a, v)]
+    if h in ("Either", "Union", "CompoundH") and isinstance(vterm, list) and vterm[0] == "inst":
+        alts = tterm[2:] if h == "Either" else tterm[1:]
+        adapting = [a for a in alts if a not in SCALAR_ALTS]
+        if len(adapting) == 1:          # the other alternatives are scalar types: they reject every `inst` value
+            return adapter_expected(adapting[0], vterm)
+    return []
+
+
+def adapt_order_hits(tterm, vterm, results, ctx):
+    """Evaluate the statement of adapter_expected on what the real paths returned."""
+    hits = []
+    for path, am, a, x in adapter_expected(tterm, vterm):
+        value = V.build_value(x, ctx)
+        klass = ctx.classes[adapt_target(a)]
+        cid = int(x[1])
+        vc = V.claim_name(cid).split(":")[0] if cid in V.CLAIMING else V.value_class(x)   # flavours: in the tags
+        for label, out, r in results:
+            ok = out.startswith("ok ")
+            if not ok and path:
+                continue            # a Tuple as a whole is rejected when ANOTHER item is: nothing is stored
+            if ok:
+                try:
+                    for i in path:
+                        r = r[i]
+                except Exception:
+                    ok = False
+            if ok and isinstance(r, ctx.classes[9]) and r.adaptee is value:
+                continue
+            if ok and r is value and isinstance(value, klass):
+                sig = "adapt-order:isinstance-before-adapt:%s:%s" % (am, vc)
+                why = ("the value itself is stored: it passes isinstance(value, klass) (type(value) is not a subclass of "
+                       "klass) and the isinstance test was taken before adaptation")
+            else:
+                sig = "adapt-order:adapter-not-stored:%s:%s" % (am, vc)
+                why = "the adapter is not stored"
+            hits.append(_hit(sig, "%s on %s, %s: an adapter factory is registered from the type of %s to the class of %s "
+                                  "and adapt != 'no', so the result%s must be the adapter; got %s: %s" % (
+                                      V.show_sexp(tterm), V.show_sexp(vterm), label, V.show_sexp(x), V.show_sexp(a),
+                                      "" if not path else " at position %s" % (path,), out, why)))
+    return hits
 
 
 def first_non_traiterror(outs):
@@ -372,20 +603,20 @@ def run_v1(env, tt, v):
                 own, adapter = V.inst_flavours(int(sv[1]))
                 tags.add("adaptation:object-%s:adapter-%s" % (V.FLAVOURS[own], V.FLAVOURS[adapter] if int(sv[1]) == 4 or int(sv[1]) >= 40 else "none"))
     fast = cmp_ = py = "-"
-    fr = None
+    fr = cr = pr = None
     if p.fv is not None:
         fast, fr, _ = V.show_outcome(lambda: p.fast(obj, value), ctx)
         k = int(p.fv[0])
         tags.add("kind:%d" % k)
         if k in CASE_KINDS:
-            cmp_, _, _ = V.show_outcome(lambda: p.in_compound(obj, value), ctx)
+            cmp_, cr, _ = V.show_outcome(lambda: p.in_compound(obj, value), ctx)
             # ---- oracle (2): the two C copies of the case agree
             if cmp_ != fast:
                 hits.append(_hit("copies-differ:kind%d:%s" % (k, V.value_class(vterm)),
                                  "%s on %s: validate_handlers[%d] gives %s, the same descriptor inside "
                                  "validate_trait_complex gives %s" % (tt, v, k, fast, cmp_)))
     if p.has_py:
-        py, _, _ = V.show_outcome(lambda: p.py(obj, value), ctx)
+        py, pr, _ = V.show_outcome(lambda: p.py(obj, value), ctx)
     for o in (fast, py):
         tags.add("res:" + o.split(" ")[0] + (":" + o.split(" ")[1] if o.startswith("exc") else ""))
     # ---- oracle (1): differential of the two real paths
@@ -441,6 +672,36 @@ def run_v1(env, tt, v):
                     exp = "ok " + V.show_value(tuple(res), ctx)
         if fast != exp:
             hits.append(_hit("tuple-not-elementwise", "%s on %s gives %s, element-wise validation gives %s" % (tt, v, fast, exp)))
+    # ---- oracle (5): adaptation comes first: a registered adapter is what gets stored (every real path)
+    if "(inst" in v and ("(Instance" in tt or "(Supports" in tt or "(AdaptsTo" in tt):
+        results = [(lab, o, r) for lab, o, r in (("compiled validator alone", fast, fr),
+                                                 ("the descriptor inside validate_trait_complex", cmp_, cr),
+                                                 ("Python validate", py, pr)) if o != "-"]
+        new = adapt_order_hits(tterm, vterm, results, ctx)
+        hits += new
+        for sv in V.sub_values(vterm, []):
+            if isinstance(sv, list) and sv[0] == "inst" and int(sv[1]) in V.CLAIMING:
+                tags.add("claims-isinstance:" + V.claim_name(int(sv[1])))
+    # ---- oracle (6): a clone by call T(allow_none=b) decides like the trait constructed with allow_none=b
+    if head == "Clone":
+        decl = declared_of_clone(tterm)
+        pd = Paths(decl, ctx)
+        tags.add("clone:allow-none-" + ("kept" if V.show_sexp(decl) == V.show_sexp(tterm[1]) else "flipped"))
+        for lab, out, which in (("compiled validator", fast, pd.fast if pd.fv is not None else None),
+                                ("Python validate", py, pd.py if pd.has_py else None)):
+            if out == "-" or which is None:
+                continue
+            exp, _, _ = V.show_outcome(lambda: which(obj, value), ctx)
+            if out == exp:
+                continue
+            if value is None and lab == "compiled validator":
+                sig = "clone-allow-none-stale-fast-validate:%s-None" % ("accepts" if out.startswith("ok ") else "rejects")
+            else:
+                sig = "clone-differs-from-declared:%s:%s" % (lab.split(" ")[0].lower(), V.value_class(vterm))
+            hits.append(_hit(sig, "%s on %s: the %s of the clone gives %s, the trait it is declared to equal (%s) gives %s; "
+                                  "fast_validate of the clone's handler is %s, its _allow_none is %r" % (
+                                      tt, v, lab, out, V.show_sexp(decl), exp, V.show_desc(p.fv, ctx),
+                                      getattr(p.h, "_allow_none", None))))
     return "fast=%s cmp=%s py=%s" % (fast, cmp_, py), hits, tags
 
 
